@@ -484,7 +484,7 @@ harnesses! {
     c08_provided: [2, 2, 4] [2, 2, 5] [2, 2, 6] [2, 2, 7] [2, 2, 8] [2, 2, 9] [2, 2, 10] [2, 2, 11] [1, 1, 0] [1, 1, 1] [1, 1, 2] [1, 1, 3] [1, 1, 12] [1, 1, 13] [1, 1, 14] [1, 1, 15] [2, 1, 0] [2, 1, 1] [2, 1, 2] [2, 1, 13];
     c08_sub: [0, 0] [1, 1] [2, 2] [3, 3] [1, 3] [3, 1];
     c08_difference_ref: [1, 1] [2, 2] [3, 2] [2, 3];
-    c08_difference_ref_slices: [1, 1] [2, 1] [2, 2];
+    c08_difference_ref_slices: [1, 1] [2, 1];
     c08_predicates: [0, 0] [1, 1] [2, 2] [3, 3] [1, 3] [3, 1] [0, 2] [2, 0];
     c14_map: [0, 0] [1, 1] [2, 2] [3, 3] [1, 3] [3, 1] [0, 2] [2, 0] [2, 3];
     c14_partial: [1] [2] [3];
